@@ -1,2 +1,3 @@
 SPECIFICATION GSpec
 CHECK_DEADLOCK FALSE
+CONSTANT Wide = FALSE
